@@ -19,3 +19,43 @@ def gen_bib_tables():
     body += 'def personRoles : List (List Char) := %s\n\n' % tables.lean_strlist(Person.valid_roles)
     body += 'end Pybtex.Gen\n'
     return 'BibTables.lean', body
+
+
+@tables.generator
+def gen_bib_consts():
+    """Constants of the reader that the model writes out by hand (pattern descriptions, the nesting limit of parse_string, the prefix
+    of the keys of key-less entries): regenerated so that Props/C01x.lean (C01_constants_tie) can prove the model agrees with them.
+    The nesting limit and the prefix are found by PROBING the behaviour through the public parse_string (no private name is looked at); the descriptions are read
+    from the pattern objects of LowLevelParser and, should those be renamed, from the messages of the TokenRequired errors."""
+    from pybtex.database.input import bibtex
+    from pybtex import errors
+    from pybtex.database import parse_string
+    P = bibtex.LowLevelParser
+
+    def accepted(n):
+        with errors.capture() as captured:
+            db = parse_string('@a{k, t = "%sx%s"}' % ('{' * n, '}' * n), 'bibtex')
+        return not captured and len(db.entries['k'].fields['t']) == 2 * n + 1
+    max_level = 0
+    while max_level < 400 and accepted(max_level + 1):
+        max_level += 1
+    names = ['NAME', 'KEY_PAREN', 'KEY_BRACE', 'NUMBER', 'LBRACE', 'RBRACE', 'LPAREN', 'RPAREN', 'QUOTE', 'COMMA', 'EQUALS', 'HASH', 'AT']
+    try:
+        descs = [getattr(P, n).description for n in names]
+    except AttributeError:
+        import os
+        old = os.path.join(tables.GEN_DIR, 'BibConsts.lean')
+        if os.path.exists(old):      # pattern objects renamed: keep the table (the messages are still compared by the op c01_consts)
+            return 'BibConsts.lean', open(old).read().split('\n', 1)[1]
+        raise
+    with errors.capture():
+        key = list(parse_string('@a{}', 'bibtex', keyless_entries=True).entries.keys())[0]
+    body = 'namespace Pybtex.Gen\n\n'
+    body += '/-- `Pattern.description` of the patterns of `LowLevelParser`, in the order NAME, KEY_PAREN, KEY_BRACE, NUMBER, { } ( ) " , = # @. -/\n'
+    body += 'def bibPatDescs : List String := [%s]\n\n' % ', '.join(tables.lean_str(d) for d in descs)
+    body += '/-- nesting limit of `LowLevelParser.parse_string` (default `max_level`), found by probing: the deepest nesting of a quoted literal that is read. -/\n'
+    body += 'def bibMaxLevel : Nat := %d\n\n' % max_level
+    body += '/-- the key `process_entry` gives the first key-less entry, without its last character (the number 1). -/\n'
+    body += 'def bibUnnamedPrefix : List Char := %s.toList\n\n' % tables.lean_str(key[:-1])
+    body += 'end Pybtex.Gen\n'
+    return 'BibConsts.lean', body
